@@ -7,7 +7,7 @@ sec5=open('tools/design_sec5_round0.md').read()
 rows=[]
 for f in sorted(glob.glob('seeded/*/meta.json')):
     m=json.load(open(f)); res=m['checks_run']
-    first = "caught" if "missed at first" not in res else "**missed at first**, caught after strengthening"
+    first = "**not caught by this property's check**, caught by another" if res.startswith("not caught") else ("caught" if "missed at first" not in res else "**missed at first**, caught after strengthening")
     sig=re.search(r'VIOLATION ([^ ]+)',res)
     rows.append(f"| {m['id']} | {m['needs_to_manifest']} | {first}: `{sig.group(1) if sig else ''}` |")
 seed_table="| seed | needs, in order to manifest | result of `./check <property> quick` on the changed tree |\n|---|---|---|\n"+"\n".join(rows)
@@ -19,7 +19,7 @@ byprop={}
 for l in fixed:
     p=re.search(r'property=(C\d+)',l).group(1); parts=l.split(' ',3); byprop.setdefault(p,[]).append(parts[3].strip() if len(parts)>3 else l)
 fixed_list="\n".join(f"* **{p}** ({len(v)}): "+"; ".join(re.sub(r'\s*\(C\d+\|.*?\)\s*$','',x)[:170] for x in v) for p,v in sorted(byprop.items()))
-nmiss=sum(1 for r in rows if 'missed at first' in r)
+nmiss=sum(1 for r in rows if 'missed at first' in r or 'not caught by' in r)
 t=t.replace('@@NSEEDS@@',str(len(rows))).replace('@@NCAUGHT@@',str(len(rows)-nmiss)).replace('@@NMISSED@@',str(nmiss))
 t=t.replace('@@NFIXED@@',str(len(fixed))).replace('@@NOPEN@@',str(len(opens))).replace('@@FIXED_LIST@@',fixed_list).replace('@@OPEN_LIST@@',open_list).replace('@@SEED_TABLE@@',seed_table).replace('@@SEC5@@',sec5)
 open('DESIGN.md','w').write(t)
